@@ -455,7 +455,7 @@ pub fn run(ctx: Ctx) -> ! {
                                 None => EncoderInput::Item(&second),
                                 Some(_) => EncoderInput::Pair((&first, &second)),
                             };
-                            let chunks: Vec<Vec<u32>> = subj.tok.encode_chunks(input, opts).map(|v| v.iter().map(|c| c.token_ids().to_vec()).collect()).unwrap_or_default();
+                            let chunks: Vec<Vec<u32>> = vp_core::catch(|| subj.tok.encode_chunks(input, opts).map(|v| v.iter().map(|c| c.token_ids().to_vec()).collect::<Vec<Vec<u32>>>()).unwrap_or_default()).unwrap_or_default();
                             json!({"case": case_json(&c), "chunks_returned": chunks})
                         });
                     }
